@@ -34,6 +34,10 @@ func VerifC08AliasValidate() {
 		h.List = append(h.List, l)
 		bad = v.Or(bad, lb)
 	}
+	// `maxLength: 0`: only the empty string is allowed
+	blank := v.Str("blank", "", "x")
+	h.Blank = &blank
+	bad = v.Or(bad, blank != "")
 	err := h.Validate()
 	v.Assert((err != nil) == bad, "C08: Validate() does not return an error exactly when a constraint is violated (through aliases)")
 }
@@ -61,7 +65,20 @@ func VerifC08AliasStrict() {
 	add("enabled", v.J{Kind: v.JBool, Bool: v.Bool("enabled")})
 	add("label", v.J{Kind: v.JString, Str: v.Str("label", "", "x")})
 	add("size", aNum(v.Int64("size")))
+	// the same nullable union (`string | boolean | null`) used by two required fields: null is a legal value for both
+	unionVal := func(name string) v.J {
+		switch v.Choose(3) {
+		case 0:
+			return v.J{Kind: v.JNull}
+		case 1:
+			return v.J{Kind: v.JString, Str: "s"}
+		default:
+			return v.J{Kind: v.JBool, Bool: v.Bool(name)}
+		}
+	}
+	first := add("first", unionVal("first"))
+	second := add("second", unionVal("second"))
 	var h Holder
 	err := h.UnmarshalJSONStrict(v.JSONBytes(doc))
-	v.Assert((err != nil) == (!direct || !via), "C08: the strict decoder does not reject exactly the documents lacking a required member that has no default (Holder)")
+	v.Assert((err != nil) == (!direct || !via || !first || !second), "C08: the strict decoder does not reject exactly the documents lacking a required member that has no default (Holder)")
 }
